@@ -91,7 +91,7 @@ def run_single(rng, res, idx):
         upd = s.ref.steps % F_now == 0
         s.train_iteration()
         D = s.grads()
-        s.p.step()
+        kh.step(s.p, cfg)
         s.ref.step(D)
         fac = s.factors()
         want = kh.DT[cfg['fdt']] or s.pdt
